@@ -54,6 +54,74 @@ INPUTS = [None, 0, 5, True, ["f", "1.5"], "5", "abc", "1.5", "null", "2020-01-02
           ["b", "mviewW", "abc"], ["b", "bytearray", "[1, 2]"], ["b", "mviewW", "2020-01-02"], ["b", "bytearray", "g"]]
 
 
+REC_SRC = """
+from __future__ import annotations
+import dataclasses, typing
+@dataclasses.dataclass
+class Tree:
+    value: int
+    child: typing.Union[Tree, int] = 0
+@dataclasses.dataclass
+class Link:
+    n: int
+    nxt: typing.Union[None, Link, str] = None
+"""
+REC_INPUTS = ["5", "'7'", "{'value': '1'}", "{'value': 1, 'child': {'value': '2', 'child': 3}}", "'{\"value\": 4}'", "[1]", "'abc'", "None",
+              "{'value': 1, 'child': None}", "{'n': 1, 'nxt': None}", "{'n': 1, 'nxt': {'n': '2'}}", "{'n': 1, 'nxt': 'tail'}"]
+
+
+def _rec_child(_job):
+    import sys
+    import types
+    import typing
+    import warnings
+    warnings.simplefilter("ignore")
+    import typelib
+    mod = types.ModuleType("vm_c08_rec")
+    sys.modules["vm_c08_rec"] = mod
+    ns = mod.__dict__
+    exec(REC_SRC, ns)
+    Tree, Link = ns["Tree"], ns["Link"]
+    bad = []
+
+    def run(t, x):
+        try:
+            return ("ok", repr(typelib.unmarshal(t, x)))
+        except Exception as e:  # noqa: BLE001
+            return ("rejected", "ValueError" if isinstance(e, ValueError) else type(e).__name__)
+    n = 0
+    for union, members in ((typing.Union[Tree, int], [Tree, int]), (typing.Union[None, Link, str], [type(None), Link, str])):
+        for src in REC_INPUTS:
+            x = eval(src)
+            got = run(union, x)
+            if type(None) in members and x is None:
+                want = ("ok", "None")
+            else:
+                want = next((r for r in (run(m, x) for m in members if m is not type(None)) if r[0] == "ok"), ("rejected", "ValueError"))
+            n += 1
+            if got != want and not (got[0] == want[0] == "rejected"):
+                bad.append(f"unmarshal({union}, {src}) -> {got}; first accepting member gives {want}"[:300])
+    # the same unions as FIELDS of the recursive class (where the member is a delayed routine)
+    for t, x, ok in ((Tree, {"value": 1, "child": None}, False), (Tree, {"value": 1, "child": {"value": 2}}, True), (Link, {"n": 1, "nxt": None}, True)):
+        got = run(t, x)
+        n += 1
+        if (got[0] == "ok") != ok:
+            bad.append(f"unmarshal({t.__name__}, {x}) -> {got}; the union field {'accepts' if ok else 'rejects'} this by its members")
+    return {"bad": bad, "n": n}
+
+
+def recursive_member_probe(res):
+    from .. import iso
+    o = iso.map_isolated(_rec_child, [None], timeout=60.0)[0]
+    if not isinstance(o, dict) or "bad" not in o:
+        raise RuntimeError(f"harness: recursive member probe failed: {o}")
+    res.case({"family": "recursive-class-member"}, True)
+    for b in o["bad"]:
+        res.failures.append({"what": b, "input": {"rec_member": True}})
+    if not o["bad"]:
+        res.count("oracle:recursive-member-first-acceptor", o["n"])
+
+
 def explore(ctx):
     res = Result()
     res.rule = RULE
@@ -114,6 +182,7 @@ def explore(ctx):
                                  "real": {"union": _b(mgot), "members": [_b(o) for o in r_["mmembers"]]}})
         else:
             res.count("oracle:mar-first-acceptor")
+    recursive_member_probe(res)
     return res
 
 
@@ -139,6 +208,11 @@ def witness(fid):
 
 def replay(failure):
     inp = failure["input"]
+    if "rec_member" in inp:
+        from .. import iso
+        o = iso.map_isolated(_rec_child, [None], timeout=60.0)[0]
+        print(json.dumps(o, indent=1, default=str)[:3000])
+        return bool(o.get("bad")) if isinstance(o, dict) else True
     job = {"prog": inp["prog"], "ops": [{"op": "union", "ty": inp["ty"], "val": inp["val"], "members": inp["members"]}]}
     real, model = core.run_jobs([job])
     print(json.dumps({"annotation": inp["ann"], "input": inp["val"], "real": real[0][0], "model": model[0][0]}, indent=1)[:3000])
